@@ -66,7 +66,7 @@ impl StyleSheetTransformer {
         };
 
         {
-            parse_rules(&mut input, &mut this);
+            parse_rules(&mut input, &mut this, true);
         }
         this
     }
@@ -257,9 +257,9 @@ fn write_maybe_rpx_dimension(
     }
 }
 
-fn parse_rules(input: &mut StepParser, ss: &mut StyleSheetTransformer) {
+fn parse_rules(input: &mut StepParser, ss: &mut StyleSheetTransformer, mut at_file_start: bool) {
     // `@import` rules are legal as long as only `@import` and `@charset` rules precede them
-    let mut at_file_start = true;
+    // (`at_file_start` of a nested rule list: whether that held where the enclosing rule began)
     while !input.is_exhausted() {
         let keeps_file_start = match input.peek() {
             Ok(peek) => match &*peek {
@@ -437,7 +437,7 @@ fn parse_at_rule(
                                     input
                                         .parse_nested_block::<_, (), ()>(|nested_input| {
                                             let input = &mut StepParser::wrap(nested_input);
-                                            parse_rules(input, ss);
+                                            parse_rules(input, ss, at_file_start);
                                             Ok(())
                                         })
                                         .ok();
